@@ -35,7 +35,11 @@ def import_results():
         if key not in recs:
             recs[key] = {"confirm": None, "checks": {}}
         if "tests_with_mutation" in r:
-            recs[key]["confirm"] = r
+            good = (r["tests_with_mutation"]["passed"] == 72 and r.get("demo_with_mutation_exit") not in (0, None)
+                    and r.get("demo_clean_exit") == 0)
+            # a later, complete confirmation replaces an earlier incomplete one (never the reverse)
+            if recs[key]["confirm"] is None or good:
+                recs[key]["confirm"] = r
         for pid, c in r["checks"].items():
             recs[key]["checks"].setdefault(pid, []).append(c)
     for mdir, rec in sorted(recs.items()):
